@@ -83,6 +83,12 @@ const LOOP_CONSTRUCTS: &[(&str, bool)] = &[
     ("nested_outer", true),
     ("depth3", true),
     ("nested_module", false),
+    // the same nests with a `return` written (not taken) in the inner loop before the body,
+    // and with one after it
+    ("nested_same_ret", true),
+    ("nested_outer_ret", true),
+    ("depth3_ret", true),
+    ("nested_ret_after", true),
 ];
 const EXPR_CONSTRUCTS: &[&str] = &[
     "list_compr",
@@ -205,6 +211,14 @@ fn catalogue() -> &'static Vec<Spec> {
             for (i, _) in FAILING_CONSUMERS.iter().enumerate() {
                 for m in 0..nm {
                     v.push(Spec { kind, construct: "eager_fail", mutation: m, alias: ALIASES[(i + m) % 4], exit: "consume_error", at: i });
+                }
+            }
+            // A cancellation / tick budget noticed at a back edge of the loop over the container.
+            for m in 0..nm {
+                for construct in ["spin_back_edge", "spin_back_edge_module", "spin_back_edge_compr"] {
+                    for exit in ["cancel", "ticks"] {
+                        v.push(Spec { kind, construct, mutation: m, alias: ALIASES[m % 4], exit, at: 0 });
+                    }
                 }
             }
             // Inner loop over the same value has ended, outer still active: mutation must fail.
@@ -380,6 +394,27 @@ fn programs(s: &Spec) -> (String, String, String) {
             indent(&body, 16)
         ),
         "nested_module" => format!("for w in [5, 6]:\n    for x in C:\n{}\n", indent(&body, 8)),
+        "nested_same_ret" => format!(
+            "def run():\n    for w in C:\n        for x in C:\n            if x == \"never\":\n                return 1\n{}\nrun()\n",
+            indent(&body, 12)
+        ),
+        "nested_outer_ret" => format!(
+            "def run():\n    for x in C:\n        for w in [10, 20]:\n            if w == \"never\":\n                return [w]\n{}\nrun()\n",
+            indent(&body, 12)
+        ),
+        "depth3_ret" => format!(
+            "def run():\n    for z in [0]:\n        for w in A:\n            for x in C:\n                if x == \"never\":\n                    return (x, w)\n{}\nrun()\n",
+            indent(&body, 16)
+        ),
+        // the action comes after the inner loop (which holds an untaken return), in the outer loop's body
+        "nested_ret_after" => format!(
+            "def run():\n    for x in C:\n        for w in [10, 20]:\n            if w == \"never\":\n                return w\n{}\nrun()\n",
+            indent(&body, 8)
+        ),
+        // the limit trips at a back edge of the loop over C itself: no call in the body
+        "spin_back_edge" => "def run():\n    cancel()\n    for w in range(600):\n        for x in C:\n            pass\nrun()\n".to_owned(),
+        "spin_back_edge_module" => "cancel()\nfor w in range(600):\n    for x in C:\n        pass\n".to_owned(),
+        "spin_back_edge_compr" => "def run():\n    cancel()\n    return [x for w in range(600) for x in C]\nrun()\n".to_owned(),
         "list_compr" => "R = [act(x) for x in C]\n".to_owned(),
         "dict_compr" => "R = {x: act(x) for x in C}\n".to_owned(),
         "nested_compr" => "R = [act(x) for w in C for x in C]\n".to_owned(),
